@@ -165,3 +165,35 @@ impl From<&AffinePoint> for Element {
         }
     }
 }
+
+// Verification hooks (off unless built with `--cfg decaf377_verif`): observe and construct
+// the internal representative of an element. Never compiled into normal builds.
+#[cfg(decaf377_verif)]
+impl Element {
+    /// The internal extended coordinates `[X, Y, Z, T]`.
+    pub fn verif_raw(&self) -> [Fq; 4] {
+        [self.inner.x, self.inner.y, self.inner.z, self.inner.t]
+    }
+
+    /// An element with exactly these extended coordinates `[X, Y, Z, T]`, unchecked.
+    pub fn verif_from_raw(c: [Fq; 4]) -> Self {
+        Element {
+            inner: EdwardsProjective::new_unchecked(c[0], c[1], c[3], c[2]),
+        }
+    }
+}
+
+#[cfg(decaf377_verif)]
+impl AffinePoint {
+    /// The internal affine coordinates `[x, y]`.
+    pub fn verif_raw(&self) -> [Fq; 2] {
+        [self.inner.x, self.inner.y]
+    }
+
+    /// An affine point with exactly these coordinates, unchecked.
+    pub fn verif_from_raw(c: [Fq; 2]) -> Self {
+        AffinePoint {
+            inner: EdwardsAffine::new_unchecked(c[0], c[1]),
+        }
+    }
+}
